@@ -60,6 +60,8 @@ def build(case):
     species = ["s1"] if kin == "single" else ["s1", "s2"]
     if case.get("link") is not None:
         md["dataset_groups"] = {"default": {"link_clp": case["link"]}}
+    if case.get("nnls"):  # the generating clps are strictly positive: the non-negative fit reproduces them as well
+        md.setdefault("dataset_groups", {}).setdefault("default", {})["residual_function"] = "non_negative_least_squares"
     if irf != "none":
         vals.update({"irf.c": [0.05, 0.2][pset], "irf.w": [0.08, 0.15][pset]})
         free += ["irf.c", "irf.w"]
@@ -308,6 +310,12 @@ def run(run: core.Run):
                 for nds in (1, 2):
                     cases.append({"kinetics": kin, "irf": irf, "addon": addon, "mode": mode, "nds": nds, "scale": nds == 2, "coords": "standard",
                                   "pset": 0, "noise": False, "square": True, "clp_layout": layout})  # fmt: skip
+    # non-negative least squares on models with mixed-sign columns (oscillation, artifact) and plain decays
+    for kin, irf, addon in (("sequential", "none", "none"), ("parallel", "gaussian", "oscillation"), ("decay", "gaussian", "artifact"),
+                            ("sequential", "none", "oscillation"), ("single", "gaussian", "baseline")):  # fmt: skip
+        for nds in (1, 2):
+            cases.append({"kinetics": kin, "irf": irf, "addon": addon, "mode": "clp", "nds": nds, "scale": nds == 2, "coords": "standard",
+                          "pset": 0, "noise": False, "nnls": True})  # fmt: skip
     # one-column matrices, explicitly unlinked / linked groups, and twin datasets (same megacomplexes, irf and axes,
     # different initial concentration / megacomplex scale)
     for kin, irf, addon in itertools.product(("single", "sequential", "parallel", "decay"), ("none", "gaussian"), ("none", "baseline")):
